@@ -411,10 +411,11 @@ struct DWorld : World {
 				break;
 			}
 			case OP_SET_ERR: {
-				Rec *r = new_rec(0, op.b, true); r->reenter = 0;
+				Rec *r = new_rec(0, op.b, true); if (r->reenter != 3) r->reenter = 0;      // (a fallback handler may emit from its end-of-life notification, nothing else)
 				Rec *old = fallback;
+				r->registered = true;      // (before the call: the old handler's end-of-life notification may emit, and the event then belongs to the new one)
 				{ Sut s; D->set_error(handler, r); }
-				r->registered = true; fallback = r; lib_fallback = false;
+				fallback = r; lib_fallback = false;
 				log.ev("SET_ERR rec #%d", r->index);
 				if (old) expect_eol(old, "fallback replaced");
 				outcome = 1;
